@@ -309,33 +309,96 @@ func runR04_5(c *Ctx, r *R) {
 		}
 	}
 	if g := r.Need("rpc", "parseStatus"); g != nil {
-		reads := map[string]string{}
-		for _, call := range callsIn(g, false) {
-			o := calleeObj(call)
-			if o == nil {
-				continue
+		// the status returned is status.New(code, msg): code must derive (through helpers, clones, conversions,
+		// phis) from the Code() accessor of the received status and from nothing else of it, msg from Message()
+		var param ssa.Value
+		if len(g.Params) > 0 {
+			param = g.Params[0]
+		}
+		var accessors func(v ssa.Value, depth int, seen map[ssa.Value]bool, out map[string]bool)
+		accessors = func(v ssa.Value, depth int, seen map[ssa.Value]bool, out map[string]bool) {
+			if v == nil || depth > 10 || seen[v] {
+				return
 			}
-			switch o.Name() {
-			case "parseStatusCode", "parseStatusMessage":
-				if len(call.Common().Args) == 1 {
-					if inner, ok := call.Common().Args[0].(*ssa.Call); ok {
-						if io := calleeObj(inner); io != nil {
-							reads[o.Name()] = io.Name()
+			seen[v] = true
+			switch x := v.(type) {
+			case *ssa.Call:
+				if o := calleeObj(x); o != nil && len(x.Call.Args) > 0 && x.Call.Args[0] == param && (o.Name() == "Code" || o.Name() == "Message") {
+					out[o.Name()] = true
+					return
+				}
+				if x.Call.IsInvoke() {
+					accessors(x.Call.Value, depth+1, seen, out)
+				}
+				for _, a := range x.Call.Args {
+					accessors(a, depth+1, seen, out)
+				}
+			case *ssa.Phi:
+				for _, e := range x.Edges {
+					accessors(e, depth+1, seen, out)
+				}
+			case *ssa.Extract:
+				accessors(x.Tuple, depth+1, seen, out)
+			case *ssa.Convert:
+				accessors(x.X, depth+1, seen, out)
+			case *ssa.ChangeType:
+				accessors(x.X, depth+1, seen, out)
+			case *ssa.UnOp:
+				accessors(unspill(x), depth+1, seen, out)
+				if al, ok := x.X.(*ssa.Alloc); ok {
+					for _, u := range users(al) {
+						if st, ok := u.(*ssa.Store); ok && st.Addr == ssa.Value(al) {
+							accessors(st.Val, depth+1, seen, out)
 						}
 					}
 				}
 			}
 		}
 		key := fnKey(g) + "/status-fields"
-		if reads["parseStatusCode"] == "Code" && reads["parseStatusMessage"] == "Message" {
-			r.OK(key, g.Pos(), "code parsed from Code(), message from Message()")
+		var ctor *ssa.Call
+		for _, ret := range returnsOf(g) {
+			if len(ret.Results) == 1 {
+				if cv, ok := ret.Results[0].(*ssa.Call); ok {
+					if o := calleeObj(cv); o != nil && o.Name() == "New" && len(cv.Call.Args) == 2 {
+						ctor = cv
+					}
+				}
+			}
+		}
+		if ctor == nil {
+			r.Unk(key, g.Pos(), "parseStatus does not return status.New(code, message)")
 		} else {
-			r.Bad(key, g.Pos(), "parseStatus does not read code from Code() and message from Message(): %v", reads)
+			cs, ms := map[string]bool{}, map[string]bool{}
+			accessors(ctor.Call.Args[0], 0, map[ssa.Value]bool{}, cs)
+			accessors(ctor.Call.Args[1], 0, map[ssa.Value]bool{}, ms)
+			if len(cs) == 1 && cs["Code"] && len(ms) == 1 && ms["Message"] {
+				r.OK(key, g.Pos(), "code derives from Code() only, message from Message() only")
+			} else {
+				r.Bad(key, g.Pos(), "parseStatus does not build the status from Code() as code and Message() as message (code <- %v, message <- %v): the caller sees another code or message than the handler produced", sortedKeys(cs), sortedKeys(ms))
+			}
 		}
 	}
 }
 
 // okOrigins lists where a possibly-OK status value comes from.
+// calleeOrigins: a status returned by a helper of package rpc has the origins of what the helper returns (moving the
+// "take the stashed result" block into a method must not change the verdict). parseResult is the one designated
+// origin and is not looked into.
+func calleeOrigins(sa *statusAn, c *Ctx, call *ssa.Call, idx int, depth int, seen map[ssa.Value]bool) ([]string, bool) {
+	cal := call.Call.StaticCallee()
+	if cal == nil || cal.Blocks == nil || cal.Pkg == nil || relPkg(cal.Pkg.Pkg.Path()) != "rpc" || cal.Name() == "parseResult" || depth > 6 {
+		return nil, false
+	}
+	var out []string
+	for _, ret := range returnsOf(cal) {
+		if ret.Block() == cal.Recover || idx >= len(ret.Results) {
+			continue
+		}
+		out = append(out, okOrigins(sa, c, ret.Results[idx], ret.Block(), depth+1, seen)...)
+	}
+	return out, true
+}
+
 func okOrigins(sa *statusAn, c *Ctx, v ssa.Value, b *ssa.BasicBlock, depth int, seen map[ssa.Value]bool) []string {
 	if depth > 8 || seen[v] {
 		return nil
@@ -376,11 +439,17 @@ func okOrigins(sa *statusAn, c *Ctx, v ssa.Value, b *ssa.BasicBlock, depth int, 
 		return out
 	case *ssa.Extract:
 		if call, ok := x.Tuple.(*ssa.Call); ok {
+			if out, ok := calleeOrigins(sa, c, call, x.Index, depth, seen); ok {
+				return out
+			}
 			if o := calleeObj(call); o != nil {
 				return []string{"call:" + o.Name()}
 			}
 		}
 	case *ssa.Call:
+		if out, ok := calleeOrigins(sa, c, x, 0, depth, seen); ok {
+			return out
+		}
 		if o := calleeObj(x); o != nil {
 			return []string{"call:" + o.Name()}
 		}
